@@ -39,7 +39,7 @@ for d in sorted(glob.glob(os.path.join(V, "seeded", "C*-*"))):
     if confirmed:
         nvalid += 1
         ncaught += 1 if caught else 0
-    status = ("caught (%s)" % r[2].replace("check ", "")) if (confirmed and caught) else ("**missed**" if confirmed else "neutralised by a repair / not applicable")
+    status = ("caught (%s)" % r[2].replace("check ", "")) if (confirmed and caught) else ("**missed**" if confirmed else meta.get("not_counted", "neutralised by a repair / not applicable"))
     rows.append("| %s | %s | %s | %s | %s |" % (m, meta.get("property", m.split("-")[0]), meta.get("needs", "").replace("|", "\\|"),
                                                 "yes" if confirmed else "no", status))
 t = t.replace("{{MUTANTS}}", "\n".join(rows)).replace("{{NCAUGHT}}", str(ncaught)).replace("{{NVALID}}", str(nvalid))
